@@ -194,7 +194,7 @@ claim("C11", "the cache mechanism is proved transparent per function: BuiltinMed
                               "and the histories. normalize_type's process-wide lru_cache is not under contract.")
 
 claim("C16", "GenericResolver._get_type_var_to_actual proved for every arity (the i-th class type variable is bound to exactly the i-th "
-             "argument, nothing else is bound; loop invariant over a symbolic dict); substitution through class hierarchies is decided on a "
+             "argument, nothing else is bound; loop invariant over a symbolic dict); GenericResolver._parametrize_by_dict (a bound type variable is replaced by exactly its actual, a hint without type variables is returned as is; re-subscription of parametrised hints excluded by the precondition); substitution through class hierarchies is decided on a "
              "printed family of generic models (multi-level, partially bound, re-ordered, shadowed, bare parents, bound/constrained variables, "
              "diamonds, nested generic fields; dataclass, attrs, TypedDict, NamedTuple) x parametrisations from a type pool, by loading data "
              "that fits the expected substitution (must load) and data fitting only another one (must fail), the expectation coming from an "
